@@ -421,9 +421,18 @@ pub fn run_check_with_context(opts: &CheckOptions<'_>) -> crate::Result<i32> {
     // --staged restricts the processed set, and recording those partial totals would
     // show up as a bogus drop in the trend. The same holds for a run that fail-fast stopped
     // before the last file (it can still pass, with --warn-only).
+    // So does a scan target other than the project itself, --include, --exclude and --ext:
+    // `check src` counts `src` only, and `snapshot` / `stats summary` know none of these.
+    let narrowed_by_arguments = !args.include.is_empty()
+        || !args.exclude.is_empty()
+        || args.ext.is_some()
+        || crate::commands::context::resolve_scan_paths(&args.paths, &args.include)
+            .iter()
+            .any(|p| p.as_path() != std::path::Path::new("."));
     let whole_project_scanned = args.files.is_empty()
         && args.diff.is_none()
         && !args.staged
+        && !narrowed_by_arguments
         && !files_skipped.load(Ordering::Relaxed);
     if exit_code == EXIT_SUCCESS
         && auto_snapshot_enabled
